@@ -1,7 +1,770 @@
-//! C12: regex validator correspondence (stub)
+//! C12: regex validator correspondence.  Each case is one JS file of 1-5 statements `new RegExp("<pattern>", "<flags>");`
+//! (also `RegExp(..)`, one-argument forms and regex literals), linted with only `no-invalid-regexp`; the rule keeps ONE
+//! `EcmaRegexValidator` per file, so the request is the whole sequence `{"m":"rx","seq":[{"p":..,"f":..},..]}` and the
+//! model (lean/DL/Model/Regex.lean) answers `{"reported":[..],"panic":b,"fuel":b}`.
+//! Generators: (a) grammar-directed patterns meant to be valid in a target mode, (b) single-edit mutants and prefixes of
+//! those, (c) a fixed nasty corpus + every string literal of the repo's own `js_regex` tests, (d) flag strings (valid
+//! subsets, duplicates, unknown letters, empty), (e) history sequences (an invalid regex followed by valid ones that
+//! share group names; repetitions).
 use crate::{Args, Out};
+use dlharness::*;
+use serde_json::{json, Value};
+
+const RULE: &str = "no-invalid-regexp";
+
+// ---------------------------------------------------------------------------------------------
+// (a) grammar-directed generator
+const NAME_POOL: &[&str] = &["a", "b", "foo", "$x", "_1", "A9", "π", "名前", "ñu", "𝒜", "𠮷", "a\u{200d}b", "\\u0061", "\\u{62}c", "\\uD835\\uDC9C", "x\\u{1d49c}", "a\u{301}", "x٣", "a·b", "a‿b", "e\\u0301", "a\\u{b7}"];
+const BAD_NAMES: &[&str] = &["\u{301}a", "٣", "·a", "\\u0301", "\\u{663}x", "1a", "a-b", "☀", "🚀", "", " ", "a b", "\\u0020", "\\uD800", "\\u{110000}", "a\\", "\\u{1f680}"];
+const PROPS_OK: &[&str] = &[
+  "L", "Lu", "Letter", "General_Category=Letter", "gc=L", "Script=Greek", "sc=Grek", "Script_Extensions=Latin", "scx=Latn", "ASCII", "Emoji", "Alphabetic",
+  "Any", "Extended_Pictographic", "Script=Dogra", "sc=Elym", "White_Space", "punct", "Nd",
+];
+const PROPS_BAD: &[&str] = &["", "Foo", "General_Category", "General_Category=", "gc=Greek", "Script=L", "Script", "sc=", "=L", "L=", "Letter ", "lu", "Script=Greek=", "InGreek", "1"];
+const LITERALS: &[&str] = &[
+  "a", "b", "c", "x", "y", "z", "k", "u", "p", "d", "0", "1", "2", "7", "8", "9", " ", "-", ",", ":", "=", "!", "<", ">", "/", "\"", "'", "_", "#", "%", "&", "@", "~", "`", ";", "é", "あ", "☃",
+  "ß", "😀", "😁", "𝒜", "\u{200d}", "\u{2028}", "\n", "\t", "\0", "]", "}", "{",
+];
+
+struct PG<'a> {
+  rng: &'a mut Rng,
+  u: bool,
+  defined: Vec<String>,
+  groups: usize,
+  feats: Vec<&'static str>,
+}
+
+impl<'a> PG<'a> {
+  fn feat(&mut self, f: &'static str) {
+    self.feats.push(f);
+  }
+  fn disjunction(&mut self, d: usize) -> String {
+    let k = if self.rng.chance(1, 3) { self.rng.range(2, 3) } else { 1 };
+    if k > 1 {
+      self.feat("alternation");
+    }
+    let v: Vec<String> = (0..k).map(|_| self.alternative(d)).collect();
+    v.join("|")
+  }
+  fn alternative(&mut self, d: usize) -> String {
+    let k = self.rng.below(if d > 2 { 3 } else { 5 }) + if d == 0 { 1 } else { 0 };
+    (0..k).map(|_| self.term(d)).collect()
+  }
+  fn term(&mut self, d: usize) -> String {
+    if self.rng.chance(1, 8) {
+      return self.assertion(d);
+    }
+    let a = self.atom(d);
+    if self.rng.chance(1, 3) {
+      let q = self.quantifier();
+      format!("{}{}", a, q)
+    } else {
+      a
+    }
+  }
+  fn assertion(&mut self, d: usize) -> String {
+    match self.rng.below(if d > 3 { 4 } else { 8 }) {
+      0 => "^".into(),
+      1 => "$".into(),
+      2 => "\\b".into(),
+      3 => "\\B".into(),
+      4 | 5 => {
+        self.feat("lookahead");
+        let neg = self.rng.chance(1, 2);
+        let b = self.disjunction(d + 1);
+        let s = format!("(?{}{})", if neg { "!" } else { "=" }, b);
+        // quantified look-ahead: legal only without `u` (Annex B)
+        if !self.u && self.rng.chance(1, 3) {
+          self.feat("quantified-lookahead");
+          format!("{}{}", s, self.quantifier())
+        } else {
+          s
+        }
+      }
+      _ => {
+        self.feat("lookbehind");
+        let neg = self.rng.chance(1, 2);
+        let b = self.disjunction(d + 1);
+        format!("(?<{}{})", if neg { "!" } else { "=" }, b)
+      }
+    }
+  }
+  fn quantifier(&mut self) -> String {
+    let q = match self.rng.below(8) {
+      0 => "*".to_string(),
+      1 => "+".to_string(),
+      2 => "?".to_string(),
+      3 => format!("{{{}}}", self.rng.below(12)),
+      4 => format!("{{{},}}", self.rng.below(12)),
+      5 | 6 => {
+        self.feat("braced-range");
+        let n = self.rng.below(10);
+        let m = n + self.rng.below(5);
+        format!("{{{},{}}}", n, m)
+      }
+      _ => {
+        // anything goes: out of order, huge, leading zeros
+        self.feat("braced-odd");
+        let xs = ["{2,1}", "{0,0}", "{007,08}", "{9223372036854775807}", "{1,9223372036854775807}", "{10,9}", "{1,1}", "{4294967296}", "{0}"];
+        self.rng.pick(&xs).to_string()
+      }
+    };
+    if self.rng.chance(1, 4) {
+      self.feat("lazy");
+      format!("{}?", q)
+    } else {
+      q
+    }
+  }
+  fn literal(&mut self) -> String {
+    let c = *self.rng.pick(LITERALS);
+    // `]` `}` `{` as pattern characters are Annex-B only
+    if self.u && (c == "]" || c == "}" || c == "{") {
+      return format!("\\{}", c);
+    }
+    if !c.is_ascii() {
+      self.feat(if c.chars().any(|x| x as u32 > 0xffff) { "astral-literal" } else { "bmp-literal" });
+    }
+    c.to_string()
+  }
+  fn name(&mut self) -> String {
+    if self.rng.chance(1, 12) {
+      self.feat("bad-group-name");
+      return self.rng.pick(BAD_NAMES).to_string();
+    }
+    let n = self.rng.pick(NAME_POOL).to_string();
+    if !n.is_ascii() {
+      self.feat("unicode-group-name");
+    }
+    if n.contains('\\') {
+      self.feat("escaped-group-name");
+    }
+    n
+  }
+  fn escape(&mut self, in_class: bool) -> String {
+    match self.rng.below(16) {
+      0 => format!("\\{}", self.rng.pick(&["d", "D", "w", "W", "s", "S"])),
+      1 => format!("\\{}", self.rng.pick(&["t", "n", "v", "f", "r", "0"])),
+      2 => format!("\\c{}", self.rng.pick(&["A", "z", "J", "M"])),
+      3 => format!("\\x{:02X}", self.rng.below(256)),
+      4 => format!("\\u{:04x}", self.rng.pick(&[0x41usize, 0x61, 0xe9, 0x3042, 0x2603, 0xffff, 0x0, 0x200d])),
+      5 => {
+        self.feat("surrogate-pair-escape");
+        self.rng.pick(&["\\uD83D\\uDE00", "\\ud835\\udc9c", "\\uD83D", "\\uDE00", "\\uDE00\\uD83D"]).to_string()
+      }
+      6 | 7 => {
+        self.feat("codepoint-escape");
+        self.rng.pick(&["\\u{1F600}", "\\u{0}", "\\u{61}", "\\u{10FFFF}", "\\u{000000061}", "\\u{1d49c}"]).to_string()
+      }
+      8 | 9 => {
+        self.feat("property-escape");
+        let p = if self.rng.chance(1, 6) { *self.rng.pick(PROPS_BAD) } else { *self.rng.pick(PROPS_OK) };
+        format!("\\{}{{{}}}", if self.rng.chance(1, 3) { "P" } else { "p" }, p)
+      }
+      10 => format!("\\{}", self.rng.pick(&["^", "$", "\\", ".", "*", "+", "?", "(", ")", "[", "]", "{", "}", "|", "/"])),
+      11 if in_class => self.rng.pick(&["\\b", "\\-", "\\B"]).to_string(),
+      11 | 12 => {
+        // Annex B only
+        self.feat("legacy-escape");
+        self.rng.pick(&["\\a", "\\8", "\\9", "\\07", "\\377", "\\400", "\\c1", "\\c", "\\c_", "\\k", "\\p", "\\u", "\\x", "\\x1", "\\u12", "\\-", "\\ ", "\\é", "\\😀", "\\_", "\\00", "\\u{", "\\u{110000}"]).to_string()
+      }
+      13 if !in_class => {
+        self.feat("backreference");
+        let n = if self.rng.chance(1, 5) { self.groups + 1 + self.rng.below(12) } else { self.rng.range(1, self.groups.max(1)) };
+        format!("\\{}", n)
+      }
+      14 if !in_class => {
+        self.feat("named-backreference");
+        let n = if !self.defined.is_empty() && self.rng.chance(4, 5) { self.rng.pick(&self.defined.clone()).clone() } else { self.name() };
+        format!("\\k<{}>", n)
+      }
+      _ => format!("\\{}", self.rng.pick(&["d", "w", "s", "n", ".", "/"])),
+    }
+  }
+  fn class_atom(&mut self) -> String {
+    match self.rng.below(10) {
+      0..=5 => {
+        let c = *self.rng.pick(&["a", "b", "f", "z", "A", "Z", "0", "5", "9", " ", "_", ".", "*", "(", ")", "[", "{", "|", "^", "$", "é", "あ", "😀", "😁", "𝒜", "/", "\"", "-"]);
+        if !c.is_ascii() && c.chars().any(|x| x as u32 > 0xffff) {
+          self.feat("astral-in-class");
+        }
+        c.to_string()
+      }
+      _ => self.escape(true),
+    }
+  }
+  /// a class atom with a numeric value below 256 most of the time: the verdict of `[X-Y]` then depends on the value the
+  /// validator computed for both ends
+  fn numeric_class_atom(&mut self) -> String {
+    match self.rng.below(12) {
+      0 | 1 => {
+        let c = char::from_u32(self.rng.range(0x20, 0x7e) as u32).unwrap();
+        if c == '\\' || c == ']' || c == '-' || c == '^' {
+          "a".into()
+        } else {
+          c.to_string()
+        }
+      }
+      2 | 3 => format!("\\x{:02x}", self.rng.below(256)),
+      4 => format!("\\u{:04X}", self.rng.below(256)),
+      5 => format!("\\u{{{:x}}}", self.rng.below(300)),
+      6 => format!("\\c{}", char::from_u32(self.rng.range(0x41, 0x5a) as u32 + if self.rng.chance(1, 2) { 0x20 } else { 0 }).unwrap()),
+      7 => format!("\\c{}", self.rng.pick(&["0", "1", "5", "9", "_"])),
+      8 | 9 => {
+        self.feat("octal-escape");
+        let k = self.rng.range(1, 3);
+        let ds: String = (0..k)
+          .map(|_| {
+            let radix = if self.rng.chance(1, 8) { 10 } else { 8 };
+            char::from_digit(self.rng.below(radix) as u32, 10).unwrap()
+          })
+          .collect();
+        format!("\\{}", ds)
+      }
+      10 => self.rng.pick(&["\\0", "\\b", "\\t", "\\n", "\\v", "\\f", "\\r", "\\-", "\\/", "\\.", "\\]", "\\\\"]).to_string(),
+      _ => self.rng.pick(&["é", "ÿ", "Ā", "😀", "\\d", "\\w", "\\uD83D\\uDE00", "\\u{1F600}", "\\p{L}"]).to_string(),
+    }
+  }
+  fn class(&mut self) -> String {
+    self.feat("class");
+    if self.rng.chance(1, 4) {
+      self.feat("class-range-numeric");
+      let mut s = String::from(if self.rng.chance(1, 5) { "[^" } else { "[" });
+      for _ in 0..self.rng.range(1, 2) {
+        let a = self.numeric_class_atom();
+        let b = self.numeric_class_atom();
+        if self.rng.chance(1, 6) {
+          s.push_str(&a);
+        }
+        s.push_str(&format!("{}-{}", a, b));
+      }
+      s.push(']');
+      return s;
+    }
+    let mut s = String::from("[");
+    if self.rng.chance(1, 4) {
+      s.push('^');
+    }
+    if self.rng.chance(1, 8) {
+      s.push('-');
+    }
+    let k = self.rng.below(5);
+    for _ in 0..k {
+      if self.rng.chance(2, 5) {
+        self.feat("class-range");
+        // ordered by construction most of the time
+        let pairs = [("a", "z"), ("A", "Z"), ("0", "9"), ("a", "a"), ("\\x00", "\\x7f"), ("\\u0000", "\\uffff"), ("!", "~"), ("😀", "😁"), ("\\u{1F600}", "\\u{1F64F}"), ("\\cA", "\\cZ"), ("\\b", "\\n"), ("é", "あ"), ("\\uD83D\\uDE00", "\\uD83D\\uDE4F"), ("\\0", "9")];
+        if self.rng.chance(1, 8) {
+          let a = self.class_atom();
+          let b = self.class_atom();
+          s.push_str(&format!("{}-{}", a, b));
+        } else {
+          let (a, b) = *self.rng.pick(&pairs);
+          if self.rng.chance(1, 12) {
+            self.feat("class-range-reversed");
+            s.push_str(&format!("{}-{}", b, a));
+          } else {
+            s.push_str(&format!("{}-{}", a, b));
+          }
+        }
+      } else {
+        let a = self.class_atom();
+        s.push_str(&a);
+      }
+    }
+    if self.rng.chance(1, 8) {
+      s.push('-');
+    }
+    s.push(']');
+    s
+  }
+  fn atom(&mut self, d: usize) -> String {
+    let deep = d > 3;
+    match self.rng.below(if deep { 12 } else { 18 }) {
+      0..=6 => self.literal(),
+      7 => ".".into(),
+      8..=10 => self.escape(false),
+      11 => self.class(),
+      12 | 13 => {
+        self.feat("capturing-group");
+        self.groups += 1;
+        format!("({})", self.disjunction(d + 1))
+      }
+      14 => {
+        self.feat("non-capturing-group");
+        format!("(?:{})", self.disjunction(d + 1))
+      }
+      15 | 16 => {
+        self.feat("named-group");
+        self.groups += 1;
+        let mut n = self.name();
+        // fresh name most of the time
+        if self.defined.contains(&n) && self.rng.chance(5, 6) {
+          n = format!("{}{}", n, self.groups);
+        }
+        if self.defined.contains(&n) {
+          self.feat("duplicate-group-name");
+        }
+        self.defined.push(n.clone());
+        format!("(?<{}>{})", n, self.disjunction(d + 1))
+      }
+      _ => self.class(),
+    }
+  }
+}
+
+fn gen_pattern(rng: &mut Rng, u: bool, feats: &mut Vec<&'static str>) -> String {
+  let mut g = PG { rng, u, defined: vec![], groups: 0, feats: vec![] };
+  let p = g.disjunction(0);
+  feats.extend(g.feats);
+  p
+}
+
+// ---------------------------------------------------------------------------------------------
+// (b) mutants
+const MUT_CHARS: &[char] = &[
+  '(', ')', '[', ']', '{', '}', '|', '\\', '*', '+', '?', '^', '$', '.', '-', '<', '>', '=', '!', ':', 'k', 'p', 'u', 'x', 'd', 'c', 'b', 'P', '0', '1', '2', '3', '4', '5', '6', '7', '8', '9', ',', '/', 'a',
+  '😀',
+];
+
+fn mutate(rng: &mut Rng, p: &str, feats: &mut Vec<&'static str>) -> String {
+  let mut cs: Vec<char> = p.chars().collect();
+  let n = cs.len();
+  match rng.below(7) {
+    0 if n > 0 => {
+      feats.push("mut-delete");
+      cs.remove(rng.below(n));
+    }
+    1 => {
+      feats.push("mut-insert");
+      cs.insert(rng.below(n + 1), *rng.pick(MUT_CHARS));
+    }
+    2 if n > 0 => {
+      feats.push("mut-replace");
+      let i = rng.below(n);
+      cs[i] = *rng.pick(MUT_CHARS);
+    }
+    3 if n > 1 => {
+      feats.push("mut-swap");
+      let i = rng.below(n - 1);
+      cs.swap(i, i + 1);
+    }
+    4 | 5 => {
+      feats.push("mut-truncate");
+      cs.truncate(rng.below(n + 1));
+    }
+    6 if n > 0 => {
+      feats.push("mut-suffix");
+      let k = rng.below(n);
+      cs.drain(0..k);
+    }
+    _ => {
+      feats.push("mut-insert");
+      cs.insert(rng.below(n + 1), *rng.pick(MUT_CHARS));
+    }
+  }
+  cs.into_iter().collect()
+}
+
+// ---------------------------------------------------------------------------------------------
+// (c) corpus
+const NASTY: &[&str] = &[
+  "(?<a", "(?<a>", "(?<", "(?<>)", "(?<a)", "(?", "(?a", "(?a)", "(?:", "(?:a", "(?=", "(?!", "(?<=", "(?<!", "(?<=a", "(?<a>x", "(?<a>x)(?<a", "(?<π", "(?<a\u{200d}",
+  "\\k<", "\\k<a", "\\k<a>", "\\k", "\\k<>", "(?<a>x)\\k<", "(?<a>x)\\k<a", "(?<a>x)\\k<a>", "(?<a>x)\\k<b>", "\\k<a>(?<a>x)", "(?<a>x)\\k", "(?<a>\\k<a>)", "\\k<a", "(?<a>x)\\k<a\\",
+  "\\u", "\\u1", "\\u12", "\\u123", "\\u1234", "\\u{", "\\u{}", "\\u{1", "\\u{1}", "\\u{110000}", "\\u{10FFFF}", "\\u{00000000000000000061}", "\\uD83D\\uDE00", "\\uD83D", "\\uDE00", "\\uD83D\\u0041",
+  "\\uD83D\\", "\\uD83D\\u", "\\uD83D\\uDE0", "\\x", "\\x1", "\\x1g", "\\x41", "\\c", "\\c1", "\\cA", "\\c_", "[\\c]", "[\\c1]", "[\\c_]", "[\\cA]", "[\\c-a]", "[\\c", "\\", "a\\", "[\\", "[a\\", "[\\c_-\\x20]", "[\\c1-\\x12]", "[\\x10-\\c1]", "[\\c_-\\x1e]", "[\\101-\\60]", "[\\60-\\101]", "[\\400-!]", "[\\377-\\400]", "[\\477-\\100]", "[\\47-\\477]", "[\\18-\\17]", "[\\08-\\1]",
+  "[", "[a", "[]", "[^]", "[^", "]", "(", ")", "()", "(()", "())", "{", "}", "{}", "{1}", "{1,}", "{1,2}", "{,2}", "a{", "a{1", "a{1,", "a{1,2", "a{,2}", "a{}", "a{a}", "a{1}{2}", "a{2,1}", "a{1,2}?", "a{2,1}?",
+  "a{1,2}??", "a**", "a*?", "a*??", "a+*", "a?+", "*", "+", "?", "*a", "|*", "(*)", "(?:*)", "^*", "$+", "\\b*", "\\B?", "(?=a)*", "(?=a){2}", "(?!a)+", "(?<=a)*", "(?<!a)?", "(?<=a){1}", "(?=a)",
+  "(?<=a)", "[b-a]", "[a-a]", "[a-]", "[-a]", "[--]", "[---]", "[a--]", "[--a]", "[\\d-z]", "[a-\\d]", "[\\d-\\w]", "[\\w-]", "[-\\w]", "[\\b-\\n]", "[\\n-\\b]", "[😀-😁]", "[😁-😀]", "[😀]", "[😀-]", "[a-😀]",
+  "[😀-a]", "[\\uD83D\\uDE00-\\uD83D\\uDE01]", "[\\uD83D\\uDE01-\\uD83D\\uDE00]", "[\\u{1F600}-\\u{1F601}]", "[\\u{1F601}-\\u{1F600}]", "[\\u{1}-\\u{2}]", "[\\u{2}-\\u{1}]", "[\\u{2-\\u{1}]", "😀", "😀)",
+  "😀😀)", "(😀", "😀{2}", "😀{2,1}", "a😀\\", "😀😀😀😀]", "😀😀}", "😀[", "\\00", "\\0", "\\01", "\\08", "\\1", "\\2", "\\10", "(a)\\1", "(a)\\2", "\\1(a)", "(?:a)\\1", "(?<a>a)\\1", "(?<a>a)\\2", "\\8", "\\9", "\\377",
+  "\\400", "[\\00]", "[\\1]", "[\\8]", "[\\377]", "[\\400]", "(?<a>x)(?<a>y)", "(?<a>x)|(?<a>y)", "(?<a>x)(?<b>y)", "(?<a>(?<a>x))", "(?<a>x)(?<\\u0061>y)", "(?<a>x)(?<\\u{61}>y)", "(?<1a>x)", "(?<a-b>x)", "(?<☀>x)",
+  "(?<🚀>x)", "(?<𝒜>x)", "(?<𝒜>x)\\k<𝒜>", "(?<\\uD835\\uDC9C>x)", "(?<\\uD835\\uDC9C>x)\\k<𝒜>", "(?<\\u{1d49c}>x)\\k<\\uD835\\uDC9C>", "(?<\\uD835>x)", "(?<\\uDC9C>x)", "(?<\\u{110000}>x)", "(?<\\u>x)", "(?<a\\u>x)",
+  "(?<\\>x)", "(?<a\\>x)", "(?<$>x)", "(?<_>x)", "(?<a1>x)", "(?<a$>x)", "(?<a\u{200c}>x)", "(?<\u{200c}>x)", "(?<a😀>x)", "(?<a𝒜>x)", "(?<a𝒜", "(?<a😀", "(?<𝒜", "\\k<a😀", "(?<a>x)\\k<a𝒜", "\\p", "\\p{", "\\p{}", "\\p{L",
+  "\\p{L}", "\\P{L}", "\\p{Lu}", "\\p{lu}", "\\p{Script=Greek}", "\\p{Script=Greek", "\\p{Script=}", "\\p{Script}", "\\p{=Greek}", "\\p{sc=Grek}", "\\p{scx=Grek}", "\\p{gc=L}", "\\p{gc=Greek}", "\\p{General_Category=Lu}",
+  "\\p{General_Category}", "\\p{ASCII}", "\\p{ASCII=Y}", "\\p{Any}", "\\p{Extended_Pictographic}", "\\p{Script=Elym}", "\\p{Script=Dogr}", "\\p{L}{2}", "[\\p{L}]", "[\\p{L}-z]", "[a-\\p{L}]", "[\\p{L}-\\p{N}]", "[\\p]",
+  "[\\p{]", "\\pL", "\\p{L1}", "\\p{_}", "\\p{a=b=c}", "\\p{é}", "\\p{L😀}", "\\-", "[\\-]", "\\a", "\\e", "\\_", "\\/", "/", "a/b", "\\😀", "\\é", "\\ ", "\\\n", "\n", "a\nb", "[\n]", "\r", "\u{2028}", "\0", "\\\0",
+  "a|", "|a", "||", "a||b", "(|)", "(a|)", "(?:|)", "(?=|)", "^$", "$^", "^^", "\\b\\B", ".", "..", ".*", ".*?", "[.]", "a{99999999999999999999}", "a{1,99999999999999999999}", "\\99999999999999999999", "\\u{FFFFFFFFFFFFFFFFF}",
+  "(a)(a)(a)(a)(a)(a)(a)(a)(a)(a)\\10", "(a)(a)(a)(a)(a)(a)(a)(a)(a)(a)\\11", "(a)(a)(a)(a)(a)(a)(a)(a)(a)(a)(a)\\11", "[(]\\1", "[(](a)\\1", "\\((a)\\2", "(?:(a))\\1", "(?=(a))\\1", "(?<=(a))\\1", "(?<n>(a))\\2",
+  "(?<!(a))\\1\\2", "((((((((((a))))))))))", "(((((((((((", ")))", "[[[[", "[[]]", "[]]", "[\\]]", "[^\\]]", "{{", "}}", "}{", "a}", "a]", "a}{1}", "]{1}", "}*", "]+", "{*", "{1}*",
+];
+
+fn collect_strs(ts: proc_macro2::TokenStream, out: &mut Vec<String>) {
+  for tt in ts {
+    match tt {
+      proc_macro2::TokenTree::Group(g) => collect_strs(g.stream(), out),
+      proc_macro2::TokenTree::Literal(l) => {
+        let t = l.to_string();
+        if t.starts_with('"') || t.starts_with("r\"") || t.starts_with("r#") {
+          if let Ok(ls) = syn::parse_str::<syn::LitStr>(&t) {
+            out.push(ls.value());
+          }
+        }
+      }
+      _ => {}
+    }
+  }
+}
+
+/// every string literal of the repository's own js_regex tests (patterns, and a few flag strings / messages, which
+/// are patterns as good as any)
+fn repo_test_patterns() -> Vec<String> {
+  let repo = std::env::var("DL_REPO").unwrap_or_else(|_| "/repo".to_string());
+  let mut out = vec![];
+  for f in ["src/js_regex/mod.rs", "src/js_regex/validator.rs", "src/js_regex/reader.rs"] {
+    if let Ok(src) = std::fs::read_to_string(format!("{}/{}", repo, f)) {
+      if let Ok(ts) = src.parse::<proc_macro2::TokenStream>() {
+        collect_strs(ts, &mut out);
+      }
+    }
+  }
+  out.sort();
+  out.dedup();
+  out.retain(|s| s.chars().count() <= 120);
+  out
+}
+
+// ---------------------------------------------------------------------------------------------
+// (d) flags
+fn gen_flags(rng: &mut Rng, feats: &mut Vec<&'static str>) -> String {
+  let subset = |rng: &mut Rng, from: &str| -> String {
+    let mut v: Vec<char> = from.chars().filter(|_| rng.chance(1, 2)).collect();
+    rng.shuffle(&mut v);
+    v.into_iter().collect()
+  };
+  match rng.below(22) {
+    0..=7 => "".into(),
+    8..=11 => "u".into(),
+    12..=14 => {
+      feats.push("flags-subset");
+      subset(rng, "dgimsuy")
+    }
+    15 => {
+      feats.push("flags-v");
+      format!("{}v", subset(rng, "dgimsuy"))
+    }
+    16 => {
+      feats.push("flags-duplicate");
+      let mut s = subset(rng, "dgimsuy");
+      if s.is_empty() {
+        s.push('g');
+      }
+      let cs: Vec<char> = s.chars().collect();
+      let d = *rng.pick(&cs);
+      let mut cs = cs;
+      cs.insert(rng.below(cs.len() + 1), d);
+      cs.into_iter().collect()
+    }
+    17 => {
+      feats.push("flags-unknown");
+      let mut cs: Vec<char> = subset(rng, "dgimsuy").chars().collect();
+      let bad = *rng.pick(&['z', 'x', 'G', 'U', 'I', '1', '-', '_', ' ', 'é', 'a', 'n', '😀', '$']);
+      cs.insert(rng.below(cs.len() + 1), bad);
+      cs.into_iter().collect()
+    }
+    18 => rng.pick(&["g", "i", "m", "s", "y", "d", "gi", "gim", "dgimsy"]).to_string(),
+    19 => rng.pick(&["uu", "gg", "ugu", "gug", "uv", "vu", "v"]).to_string(),
+    20 => rng.pick(&["gu", "ug", "iu", "uy", "su", "dgimsuy", "yusmigd"]).to_string(),
+    _ => "u".into(),
+  }
+}
+
+// ---------------------------------------------------------------------------------------------
+// (e) history sequences
+fn gen_history(rng: &mut Rng, feats: &mut Vec<&'static str>) -> Vec<(String, String)> {
+  feats.push("kind=history");
+  let a = rng.pick(&["a", "foo", "π", "𝒜", "$x"]).to_string();
+  let b = rng.pick(&["b", "bar", "名前", "_1"]).to_string();
+  let sub = |t: &str| t.replace("%a", &a).replace("%b", &b);
+  let invalid: &[&str] = &[
+    "(?<%a>x)(?<%a>y)", "(?<%a>x)\\k<%b>", "(?<%a>x)(", "(?<%a>x)[", "(?<%a>x)\\k<%a", "(?<%a>x)(?<%b>y)\\3\\k<%a>", "(?<%a>x){2,1}", "(?<%a>x)(?<%b>y))", "(?<%a>x)\\k<%a>*+", "(?<%a>(?<%b>x)", "(?<%a>x)(?<%b",
+    "(?<%a>x)\\", "\\k<%a>(?<%b>x)", "(?<%a>[b-a])", "(?<%a>x)(?<%b>y)(?<%a>z)",
+  ];
+  let valid: &[&str] = &[
+    "(?<%a>z)", "\\k<%a>", "(?<%a>.)\\k<%a>", "\\k<%a>(?<%a>x)", "(?<%b>y)|(?<%a>x)", "\\1(?<%a>)", "(?<%b>y)\\k<%b>", "\\k<%b>", "(?<%a>x)(?<%b>y)\\k<%b>\\k<%a>", "(x)\\1", "\\2(a)(b)", "[\\d-a]", "a{2}", "\\k<%a",
+    "(?<%b>z)\\1", "\\k", "(?=a)*", "a{", "\\u{61}", "\\p{L}",
+  ];
+  let fl = |rng: &mut Rng| -> String { let xs: &[&str] = &["", "", "u", "u", "g", "gu"]; rng.pick(xs).to_string() };
+  let mut seq = vec![];
+  let k = rng.range(2, 5);
+  match rng.below(4) {
+    0 => {
+      // invalid, then valid ones sharing its names
+      seq.push((sub(*rng.pick(invalid)), fl(rng)));
+      for _ in 1..k {
+        seq.push((sub(*rng.pick(valid)), fl(rng)));
+      }
+    }
+    1 => {
+      // the same regex several times
+      feats.push("history-repeat");
+      let p = if rng.chance(1, 2) { sub(*rng.pick(invalid)) } else { sub(*rng.pick(valid)) };
+      let f = fl(rng);
+      for _ in 0..k {
+        seq.push((p.clone(), f.clone()));
+      }
+    }
+    2 => {
+      // the same pattern with alternating modes
+      feats.push("history-modes");
+      let p = if rng.chance(1, 2) { sub(*rng.pick(invalid)) } else { sub(*rng.pick(valid)) };
+      for i in 0..k {
+        seq.push((p.clone(), if i % 2 == 0 { "u".to_string() } else { "".to_string() }));
+      }
+    }
+    _ => {
+      for _ in 0..k {
+        let p = if rng.chance(1, 2) { sub(*rng.pick(invalid)) } else { sub(*rng.pick(valid)) };
+        seq.push((p, fl(rng)));
+      }
+    }
+  }
+  seq
+}
+
+// ---------------------------------------------------------------------------------------------
+// rendering
+pub fn js_string(p: &str, quote: char) -> String {
+  let mut o = String::new();
+  o.push(quote);
+  for c in p.chars() {
+    match c {
+      '\\' => o.push_str("\\\\"),
+      '\n' => o.push_str("\\n"),
+      '\r' => o.push_str("\\r"),
+      '\t' => o.push_str("\\t"),
+      '\u{2028}' => o.push_str("\\u2028"),
+      '\u{2029}' => o.push_str("\\u2029"),
+      c if c == quote => {
+        o.push('\\');
+        o.push(c);
+      }
+      c if (c as u32) < 0x20 || c as u32 == 0x7f => o.push_str(&format!("\\x{:02x}", c as u32)),
+      c => o.push(c),
+    }
+  }
+  o.push(quote);
+  o
+}
+
+/// can `/<p>/<f>` be written as a regex literal whose `exp` is exactly `p` (the lexer's own scan: `\` escapes the
+/// next character, `/` inside `[...]` does not terminate)
+fn literal_safe(p: &str, f: &str) -> bool {
+  if p.is_empty() || p.starts_with('*') || p.contains('/') {
+    return false;
+  }
+  if p.chars().any(|c| c == '\n' || c == '\r' || c == '\u{2028}' || c == '\u{2029}') {
+    return false;
+  }
+  if !f.chars().all(|c| c.is_ascii_alphanumeric()) {
+    return false;
+  }
+  let (mut esc, mut in_class) = (false, false);
+  for c in p.chars() {
+    if esc {
+      esc = false;
+    } else if c == '\\' {
+      esc = true;
+    } else if c == '[' {
+      in_class = true;
+    } else if c == ']' && in_class {
+      in_class = false;
+    }
+  }
+  !esc && !in_class
+}
+
+#[derive(Clone, Copy, PartialEq)]
+enum Form {
+  New2,
+  New1,
+  Call2,
+  Call1,
+  Literal,
+}
+
+fn render(seq: &[(String, String)], forms: &[Form], quotes: &[char]) -> (String, Vec<usize>) {
+  let mut src = String::new();
+  let mut offs = vec![];
+  for (i, (p, f)) in seq.iter().enumerate() {
+    offs.push(src.len());
+    let q = quotes[i];
+    match forms[i] {
+      Form::New2 => src.push_str(&format!("new RegExp({}, {});\n", js_string(p, q), js_string(f, q))),
+      Form::New1 => src.push_str(&format!("new RegExp({});\n", js_string(p, q))),
+      Form::Call2 => src.push_str(&format!("RegExp({}, {});\n", js_string(p, q), js_string(f, q))),
+      Form::Call1 => src.push_str(&format!("RegExp({});\n", js_string(p, q))),
+      Form::Literal => src.push_str(&format!("/{}/{};\n", p, f)),
+    }
+  }
+  (src, offs)
+}
+
+fn form_name(f: Form) -> &'static str {
+  match f {
+    Form::New2 => "new2",
+    Form::New1 => "new1",
+    Form::Call2 => "call2",
+    Form::Call1 => "call1",
+    Form::Literal => "literal",
+  }
+}
+
+// ---------------------------------------------------------------------------------------------
+pub fn run_one(out: &mut Out, linter: &deno_lint::linter::Linter, rng: &mut Rng, seq: &[(String, String)], feats: &[&'static str], case_no: usize, with_panics: bool) {
+  let mut forms: Vec<Form> = seq
+    .iter()
+    .map(|(p, f)| {
+      if literal_safe(p, f) && rng.chance(1, 3) {
+        Form::Literal
+      } else if f.is_empty() && rng.chance(1, 3) {
+        if rng.chance(1, 3) {
+          Form::Call1
+        } else {
+          Form::New1
+        }
+      } else if rng.chance(1, 5) {
+        Form::Call2
+      } else {
+        Form::New2
+      }
+    })
+    .collect();
+  let quotes: Vec<char> = seq.iter().map(|_| if rng.chance(1, 4) { '\'' } else { '"' }).collect();
+  let (mut src, mut offs) = render(seq, &forms, &quotes);
+  let mut res = lint(linter, &src, "js");
+  if let Outcome::ParseErr(_) = res {
+    // a literal the parser itself rejects: fall back to string arguments for the whole file
+    out.count("literal-fallback");
+    for f in forms.iter_mut() {
+      if *f == Form::Literal {
+        *f = Form::New2;
+      }
+    }
+    let r = render(seq, &forms, &quotes);
+    src = r.0;
+    offs = r.1;
+    res = lint(linter, &src, "js");
+  }
+  for f in feats {
+    out.count(&format!("feat={}", f));
+  }
+  for f in &forms {
+    out.count(&format!("form={}", form_name(*f)));
+  }
+  out.count(&format!("outcome={}", res.tag()));
+  out.count(&format!("seqlen={}", seq.len()));
+  let seqj: Vec<Value> = seq.iter().map(|(p, f)| json!({"p": p, "f": f})).collect();
+  let meta = json!({"case": case_no, "src": src, "seq": seqj, "forms": forms.iter().map(|f| form_name(*f)).collect::<Vec<_>>()});
+  match res {
+    Outcome::Ok(ds) => {
+      let mut reported = vec![false; seq.len()];
+      for d in ds.iter().filter(|d| d.code == RULE) {
+        match d.start.and_then(|s| offs.iter().position(|o| *o == s)) {
+          Some(i) => reported[i] = true,
+          None => out.found("C12", "diagnostic-not-at-a-statement-start", &src, json!({"meta": meta, "diag": d.json()})),
+        }
+      }
+      for r in &reported {
+        out.count(if *r { "reported=true" } else { "reported=false" });
+      }
+      // history oracle (second sentence of C12): the verdict of each expression alone, on a fresh validator, must be
+      // the verdict it got inside the sequence
+      if seq.len() > 1 {
+        for (i, one) in seq.iter().enumerate() {
+          let (src1, _) = render(std::slice::from_ref(one), &[if forms[i] == Form::Literal { Form::New2 } else { forms[i] }], &quotes[i..i + 1]);
+          if let Outcome::Ok(d1) = lint(linter, &src1, "js") {
+            let alone = d1.iter().any(|d| d.code == RULE);
+            if alone != reported[i] {
+              out.found("C12", if reported[i] { "verdict-depends-on-earlier-regexes:reported-only-in-sequence" } else { "verdict-depends-on-earlier-regexes:reported-only-alone" }, &src,
+                json!({"meta": meta, "index": i, "pattern": one.0, "flags": one.1, "in_sequence": reported[i], "alone": alone}));
+            }
+          }
+        }
+      }
+      out.case(json!({"m": "rx", "seq": seqj}), json!({"reported": reported, "panic": false, "fuel": false}), meta);
+    }
+    Outcome::ParseErr(e) => {
+      out.count("parse-error-skipped");
+      let _ = e;
+    }
+    Outcome::Panic(m) => {
+      out.found("C01", "panic:no-invalid-regexp", &src, json!({"meta": meta, "panic": m}));
+      // `--opt panics=1`: also ask the model whether it predicts the panic (a panic unwinds out of `lint_file`, the
+      // file gets no diagnostics: all `false`)
+      if with_panics {
+        out.case(json!({"m": "rx", "seq": seqj}), json!({"reported": vec![false; seq.len()], "panic": true, "fuel": false}), meta);
+      }
+    }
+  }
+}
 
 pub fn run(args: &Args) {
-  let out = Out::new(&args.out, "rx");
+  let mut out = Out::new(&args.out, "rx");
+  let mut rng = Rng::new(args.seed ^ 0x5258);
+  let codes = vec![RULE.to_string()];
+  let linter = mk_linter(rules_by_codes(&codes), &Words::default());
+  let repo_pats = repo_test_patterns();
+  let with_panics = args.opts.get("panics").map(|s| s == "1").unwrap_or(false);
+  out.add("repo-test-patterns", repo_pats.len() as u64);
+  for case_no in 0..args.count {
+    let mut crng = rng.fork();
+    let mut feats: Vec<&'static str> = vec![];
+    let kind = crng.below(20);
+    let seq: Vec<(String, String)> = if kind < 2 {
+      gen_history(&mut crng, &mut feats)
+    } else if kind < 4 {
+      // consecutive prefixes of one pattern, one mode
+      feats.push("kind=prefix-run");
+      let u = crng.chance(1, 2);
+      let base = if crng.chance(1, 4) { crng.pick(NASTY).to_string() } else { gen_pattern(&mut crng, u, &mut feats) };
+      let cs: Vec<char> = base.chars().collect();
+      let k = crng.range(1, 5).min(cs.len() + 1);
+      let hi = crng.range(k - 1, cs.len());
+      let f = if u { "u".to_string() } else { "".to_string() };
+      (0..k).map(|i| (cs[..hi + 1 - k + i].iter().collect::<String>(), f.clone())).collect()
+    } else {
+      let k = crng.range(1, 5);
+      (0..k)
+        .map(|_| {
+          let f = gen_flags(&mut crng, &mut feats);
+          // the mode the pattern is generated for usually agrees with the flags
+          let u = if crng.chance(5, 6) { f.contains('u') || (f.is_empty() && crng.chance(1, 2)) } else { crng.chance(1, 2) };
+          let p = match crng.below(20) {
+            0..=7 => {
+              feats.push("kind=grammar");
+              gen_pattern(&mut crng, u, &mut feats)
+            }
+            8..=13 => {
+              feats.push("kind=mutant");
+              let base = if crng.chance(1, 5) { crng.pick(NASTY).to_string() } else { gen_pattern(&mut crng, u, &mut feats) };
+              let m = mutate(&mut crng, &base, &mut feats);
+              if crng.chance(1, 5) {
+                mutate(&mut crng, &m, &mut feats)
+              } else {
+                m
+              }
+            }
+            14..=16 => {
+              feats.push("kind=nasty");
+              crng.pick(NASTY).to_string()
+            }
+            _ if !repo_pats.is_empty() => {
+              feats.push("kind=repo-test");
+              crng.pick(&repo_pats).clone()
+            }
+            _ => {
+              feats.push("kind=nasty");
+              crng.pick(NASTY).to_string()
+            }
+          };
+          (p, f)
+        })
+        .collect()
+    };
+    feats.sort();
+    feats.dedup();
+    run_one(&mut out, &linter, &mut crng, &seq, &feats, case_no, with_panics);
+  }
   out.finish();
 }
